@@ -30,6 +30,14 @@ def update_fn(prog, pv, body):
     return None, None
 
 
+def for_loops_any(body):
+    """every natural loop of the body as {"blocks", "header", "switch_bb", "none", "line"} (for / while / loop alike)"""
+    out = []
+    for h, bl in sorted(body.natural_loops().items()):
+        out.append({"blocks": bl, "header": h, "switch_bb": None, "none": None, "line": body.blocks[h].term.line})
+    return out
+
+
 def run(ck, prog, ctx):
     ck.rule("SELECT", "direction of a two-way selection from (comparison op, operand returned on the true edge) (DESIGN 3.10)")
     ck.rule("GUARD", "constant non-zero divisor")
@@ -151,6 +159,109 @@ def run(ck, prog, ctx):
                 ok = ps == {1, 2} and adds and not others
                 ck.ob("SELECT", "average/update", bool(ok), "the mean's numerator is %s" % ("the sum of both arguments" if ok else "not a plain sum of both arguments (params %s)" % sorted(ps)), where=fb.where(d["line"]))
     ck.floor("SELECT", "selection sites", n, 3, soft=True)
+
+    # ---- CUTOFF: the clustering of the four constructors runs until one cluster is left.  A merge loop that can be left when the closest
+    # distance compares against a BOUND is complete only if, for these constructors, the bound makes the comparison unsatisfiable:
+    # `dist > bound` with bound = +inf.  The largest finite float is not that bound: a distance function that answers +inf (no similarity
+    # at all: -ln 0, 1/0 - 1) ends the clustering early and `indicies()` is no longer a permutation.
+    ck.rule("CUTOFF", "an exit of a merge loop in the code behind Linkage::{union, single, complete, average} that is guarded by a float comparison with a bound: the bound these constructors pass is a constant for which the exit condition cannot hold (+inf for `>`)")
+    from engines import compare_switches as _cs17, loop_early_exits as _lee17
+    pvc17 = Prov(prog, inline=False)
+    ctors = [prog.body(LINK + m_) for m_ in ("union", "single", "complete", "average")]
+    ctors = [c_ for c_ in ctors if c_ is not None]
+    reach17 = prog.reachable_bodies([c_.id for c_ in ctors]) if ctors else set()
+
+    STD_F = {"INFINITY": float("inf"), "NEG_INFINITY": float("-inf"), "MAX": 3.4028234663852886e38, "MIN": -3.4028234663852886e38, "MIN_POSITIVE": 1.17549435e-38, "EPSILON": 1.1920929e-07, "NAN": None}
+
+    def const_float17(op_, depth=0):
+        """value of a float constant operand: a literal, a std constant (f32::INFINITY, f32::MAX ..), or a crate constant defined as one of those"""
+        v_ = op_.float_value()
+        if v_ is not None:
+            return v_
+        d_ = (op_.const or {}).get("def") or ""
+        m_ = re.match(r"^core::f(32|64)::<impl f(32|64)>::(\w+)$", d_)
+        if m_:
+            return STD_F.get(m_.group(3))
+        cb_ = prog.bodies.get(d_)
+        if cb_ is not None and cb_.kind == "Const" and depth < 3:
+            for _, st_ in cb_.stmts():
+                if st_.k == "assign" and st_.place.local == 0 and st_.rv["k"] == "use" and st_.rv["op"].kind == "const":
+                    return const_float17(st_.rv["op"], depth + 1)
+        return None
+
+    def actuals17(body, pidx, depth=0):
+        """constant float values (or None for `not a constant`) that reach parameter `pidx` of `body` from the four constructors"""
+        out = []
+        if depth > 4:
+            return [None]
+        for cb_, cbi_, ct_ in prog.callers_of(body.id):
+            root_ = prog.bodies[cb_.root] if cb_.kind == "Closure" and cb_.root in prog.bodies else cb_
+            if root_.id not in reach17 and root_.id not in [c_.id for c_ in ctors]:
+                continue
+            if pidx - 1 >= len(ct_.args):
+                out.append(None)
+                continue
+            a_ = ct_.args[pidx - 1]
+            if a_.kind == "const":
+                out.append(const_float17(a_))
+                continue
+            at_ = pvc17.of_operand(cb_, a_)
+            ps_ = params_of(at_, cb_.id)
+            cs_ = [x_ for x_ in at_ if x_[0] == "const"]
+            if ps_ and not cs_ and cb_.kind != "Closure":
+                for p_ in ps_:
+                    out += actuals17(cb_, p_, depth + 1)
+            elif cs_ and not ps_ and len(cs_) == 1:
+                v_ = cs_[0][2]
+                try:
+                    out.append(float(str(v_).replace("_f32", "").replace("f32", "").replace("_f64", "").replace("f64", "").replace("+Inf", "inf").replace("Inf", "inf")))
+                except ValueError:
+                    out.append(None)
+            else:
+                out.append(None)
+        return out
+    n_cut = 0
+    for rid in sorted(reach17):
+        rb = prog.bodies.get(rid)
+        if rb is None or rb.kind not in ("Fn", "AssocFn") or not (rb.file or "").endswith("stats/linkage.rs") or not rb.natural_loops():
+            continue
+        css = _cs17(rb, pvc17)
+        for lp in for_loops_any(rb):
+            exits = set(_lee17(rb, lp))
+            for c_ in css:
+                if c_["bb"] not in lp["blocks"]:
+                    continue
+                for side, tg in (("true", c_["true_tg"]), ("false", c_["false_tg"])):
+                    if tg is None:
+                        continue
+                    leaves = (c_["bb"], tg) in exits or (tg in lp["blocks"] and all((x_, y_) in exits for x_ in [tg] for y_ in rb.succ[x_]) and rb.succ[tg])
+                    if not leaves:
+                        continue
+                    tys = [rb.locals[o_.place.local]["s"] if o_.place is not None and o_.place.is_local() else (o_.const.get("ty") if o_.kind == "const" else "") for o_ in (c_["l"], c_["r"])]
+                    if not any(t_ in ("f32", "f64") for t_ in tys):
+                        continue
+                    al_, ar_ = pvc17.of_operand(rb, c_["l"]), pvc17.of_operand(rb, c_["r"])
+                    pl, pr = params_of(al_, rb.id), params_of(ar_, rb.id)
+                    pure_l, pure_r = bool(al_) and all(x_[0] == "param" for x_ in al_), bool(ar_) and all(x_[0] == "param" for x_ in ar_)
+                    bound = ("r", pr) if pure_r and not pure_l else (("l", pl) if pure_l and not pure_r else None)
+                    if bound is None or len(bound[1]) != 1:
+                        continue
+                    n_cut += 1
+                    vals = actuals17(rb, next(iter(bound[1])))
+                    key = "cutoff/%s/%s" % (rb.short, c_["op"])
+                    # exit taken when  data OP bound  is `side`
+                    op = c_["op"] if bound[0] == "r" else {"Gt": "Lt", "Lt": "Gt", "Ge": "Le", "Le": "Ge"}.get(c_["op"], c_["op"])
+                    need = None  # the bound value for which the exit can never be taken (no NaN assumed: the loop compares distances it has selected with the same ordering)
+                    if (op, side) in (("Gt", "true"), ("Le", "false")):
+                        need = float("inf")
+                    elif (op, side) in (("Lt", "true"), ("Ge", "false")):
+                        need = float("-inf")
+                    if need is None or not vals or any(v_ is None for v_ in vals):
+                        ck.undecided("CUTOFF", key, "%s leaves its merge loop on a float comparison (line %s) whose bound is not a constant at the constructors' call sites, or whose form is not one of `dist > bound` / `dist < bound`" % (rb.short, c_["line"]), where=rb.where(c_["line"]))
+                    else:
+                        bad = [v_ for v_ in vals if v_ != need]
+                        ck.ob("CUTOFF", key, not bad, "%s leaves its merge loop when the distance is %s the bound; union / single / complete / average pass %s%s" % (
+                            rb.short, "above" if need > 0 else "below", sorted(set(vals)), "" if not bad else ": a distance of %sinf satisfies that, so the clustering can stop before one cluster is left (fewer than n-1 merges)" % ("+" if need > 0 else "-")), where=rb.where(c_["line"]))
 
     # ---- size bookkeeping: the size of a merge is size(first node) + size(second node)
     ck.rule("ROLE", "index roles in the cluster-size bookkeeping (DESIGN 3.4)")
